@@ -312,7 +312,8 @@ func (g *sgState) genFile(idx int) {
 	for _, m := range mine {
 		g.fill(idx, m)
 	}
-	if g.rng.Chance(0.6) {
+	// 0-3 services: a later service must not see the methods of an earlier one
+	for si, ns := 0, []int{0, 1, 1, 2, 3}[g.rng.Intn(5)]; si < ns; si++ {
 		name := g.fresh(pkg)
 		fq := join(pkg, name)
 		g.claim(fq, kService)
